@@ -326,34 +326,57 @@ func rulesC06(c *Ctx) {
 			continue
 		}
 		raw, viaRepl := 0, 0
-		// parameter-derived strings reaching output
-		isParamStr := func(v ssa.Value) bool { return derivesFromParam(v, sf, 0) }
-		for _, b := range sf.Blocks {
-			for _, in := range b.Instrs {
-				switch x := in.(type) {
-				case *ssa.Call:
-					callee := x.Call.StaticCallee()
-					if callee == nil {
-						continue
-					}
-					switch callee.Name() {
-					case "Replace":
-						if u, ok := x.Call.Args[0].(*ssa.UnOp); ok {
-							if gl, ok := u.X.(*ssa.Global); ok && gl.Name() == g && isParamStr(x.Call.Args[1]) {
-								viaRepl++
+		// parameter-derived strings reaching output, followed into in-package
+		// helpers that receive the value
+		visited := map[*ssa.Function]bool{}
+		var count func(f *ssa.Function, depth int)
+		count = func(f *ssa.Function, depth int) {
+			if visited[f] || depth > 3 {
+				return
+			}
+			visited[f] = true
+			isParamStr := func(v ssa.Value) bool { return derivesFromParam(v, f, 0) }
+			for _, b := range f.Blocks {
+				for _, in := range b.Instrs {
+					switch x := in.(type) {
+					case *ssa.Call:
+						callee := x.Call.StaticCallee()
+						if callee == nil {
+							continue
+						}
+						switch callee.Name() {
+						case "Replace":
+							if u, ok := x.Call.Args[0].(*ssa.UnOp); ok {
+								if gl, ok := u.X.(*ssa.Global); ok && gl.Name() == g && isParamStr(x.Call.Args[1]) {
+									viaRepl++
+								}
+							}
+						case "WriteString":
+							if len(x.Call.Args) == 2 && isParamStr(x.Call.Args[1]) {
+								raw++
+							}
+						default:
+							if callee.Pkg == sf.Pkg && len(callee.Blocks) > 0 {
+								for _, a := range x.Call.Args {
+									if isStringType(a.Type()) && isParamStr(a) {
+										count(callee, depth+1)
+										break
+									}
+								}
 							}
 						}
-					case "WriteString":
-						if len(x.Call.Args) == 2 && isParamStr(x.Call.Args[1]) {
+					case *ssa.BinOp:
+						if x.Op == token.ADD && isStringType(x.Type()) && (isParamStr(x.X) || isParamStr(x.Y)) {
 							raw++
 						}
 					}
-				case *ssa.BinOp:
-					if x.Op == token.ADD && isStringType(x.Type()) && (isParamStr(x.X) || isParamStr(x.Y)) {
-						raw++
-					}
 				}
 			}
+		}
+		count(sf, 0)
+		if raw == 0 && viaRepl == 0 {
+			c.Unk("C06.route", fn, sf.Pos(), "no write of the value found in "+fn+" or the in-package helpers it hands the value to")
+			continue
 		}
 		c.Check(viaRepl >= 1 && raw == 0, "C06.route", fn, sf.Pos(), fmt.Sprintf("%d raw writes of the value, %d through %s: a value written raw can close its own quote", raw, viaRepl, g))
 	}
